@@ -400,8 +400,7 @@ def check_decoding(ctx: Ctx, F: IlpFacts, rules: Dict[str, str], result_class: s
                 ids = norm(tg.elts[0]) if isinstance(tg, ast.Tuple) and len(tg.elts) == 1 else None
                 thr_node = (s, t)
     if thr_node is None:
-        if "threshold" in rules:
-            ctx.undecided(rules["threshold"], f, None, "selection `np.where(x.value > t)` not found", key="threshold")
+        ctx.undecided(rules.get("threshold") or next(iter(rules.values())), f, None, "selection `np.where(x.value > t)` not found", key="threshold")
         return
     s, t = thr_node
     chk("threshold", t is not None and 0 < t < 1 and ids is not None, s, f"candidates with x > {t} are selected (0 < t < 1 separates the boolean values)",
@@ -428,6 +427,8 @@ def check_decoding(ctx: Ctx, F: IlpFacts, rules: Dict[str, str], result_class: s
     chk("same-ids", chosen is not None and dis is not None, s, "the same id vector selects the candidates and their disorders",
         "selected candidates and selected disorders are not indexed by the same ids")
     if chosen is None or dis is None:
+        if "same-ids" not in rules:
+            ctx.undecided(next(iter(rules.values())), f, s, "selected candidates / disorders not found (anchor of the decoding step)", key="same-ids")
         return
     F.notes["dis_sel"] = dis
     # ---- decoding loops, evaluated symbolically -------------------------------------------------------------
@@ -443,10 +444,11 @@ def check_decoding(ctx: Ctx, F: IlpFacts, rules: Dict[str, str], result_class: s
             O, pos_name, row = L, norm(L.target.elts[0]), norm(L.target.elts[1])
             dis_of_row = {f"{dis}[{pos_name}]"}
         elif isinstance(it, ast.Call) and dotted(it.func) == "zip" and len(it.args) == 2 and not it.keywords and isinstance(L.target, ast.Tuple) \
-                and len(L.target.elts) == 2 and sorted(norm(a) for a in it.args) == sorted([chosen, dis]):
+                and len(L.target.elts) == 2 and chosen in [norm(a) for a in it.args]:
             k = [norm(a) for a in it.args].index(chosen)
             O, row = L, norm(L.target.elts[k])
-            dis_of_row = {norm(L.target.elts[1 - k])}
+            # the companion array must be the disorders selected by the same ids, else no expression is the row's own disorder
+            dis_of_row = {norm(L.target.elts[1 - k])} if norm(it.args[1 - k]) == dis else set()
         elif isinstance(it, ast.Call) and dotted(it.func) == "enumerate" and it.args and isinstance(it.args[0], ast.Call) and dotted(it.args[0].func) == "zip" \
                 and sorted(norm(a) for a in it.args[0].args) == sorted([chosen, dis]) and isinstance(L.target, ast.Tuple) and len(L.target.elts) == 2 \
                 and isinstance(L.target.elts[1], ast.Tuple) and len(L.target.elts[1].elts) == 2:
@@ -460,8 +462,7 @@ def check_decoding(ctx: Ctx, F: IlpFacts, rules: Dict[str, str], result_class: s
         if O is not None:
             break
     if O is None:
-        if "slots" in rules:
-            ctx.undecided(rules["slots"], f, None, "decoding loop over the chosen candidates not found", key="slots")
+        ctx.undecided(rules.get("slots") or next(iter(rules.values())), f, None, "decoding loop over the chosen candidates not found", key="slots")
         return
     aid_ = pos_name
     import copy as _copy
@@ -490,8 +491,7 @@ def check_decoding(ctx: Ctx, F: IlpFacts, rules: Dict[str, str], result_class: s
         elif isinstance(st, ast.Assign) and len(st.targets) == 1 and isinstance(st.targets[0], ast.Name) and not inner:
             oenv[st.targets[0].id] = _Subst(oenv).visit(_copy.deepcopy(st.value))
     if len(inner) != 1:
-        if "slots" in rules:
-            ctx.undecided(rules["slots"], f, O, "loop over the annotator slots of a candidate not found", key="slots")
+        ctx.undecided(rules.get("slots") or next(iter(rules.values())), f, O, "loop over the annotator slots of a candidate not found", key="slots")
         return
     I = inner[0]
     an_i, un_i = norm(I.target.elts[0]), norm(I.target.elts[1])
@@ -570,8 +570,7 @@ def check_decoding(ctx: Ctx, F: IlpFacts, rules: Dict[str, str], result_class: s
         except _Unknown as e:
             unknown = str(e)
     if unknown is not None:
-        if "slots" in rules:
-            ctx.undecided(rules["slots"], f, I, f"slot decoding contains `{unknown}`: shape not recognised (not a verdict)", key="slots")
+        ctx.undecided(rules.get("slots") or next(iter(rules.values())), f, I, f"slot decoding contains `{unknown}`: shape not recognised (not a verdict)", key="slots")
         return
     real_app, real_env = results["real"]
     null_app, null_env = results["null"]
